@@ -223,16 +223,14 @@ def concatRun (sizes : List Nat) (bs : Nat) (streams : List (List Nat)) (draws :
 
 /-! ## `DistributedSampler` -/
 
-/-- `itertools.islice(xs, start, None, step)` on a finite prefix (`step > 0`) -/
-def islice {α} (xs : List α) (start step : Nat) : List α :=
-  match _h : xs.drop start with
-  | [] => []
-  | x :: rest => x :: islice rest (step - 1) step
-termination_by xs.length
-decreasing_by
-  have : (xs.drop start).length = (x :: rest).length := by rw [_h]
-  simp only [List.length_drop, List.length_cons] at this
-  omega
+/-- `itertools.islice(xs, start, None, step)` on a finite prefix (`step > 0`): walk the stream with a
+countdown `skip`; emit when it reaches 0 and reset it to `step - 1`. -/
+def isliceAux {α} (step : Nat) : List α → Nat → List α
+  | [], _ => []
+  | x :: xs, 0 => x :: isliceAux step xs (step - 1)
+  | _ :: xs, s + 1 => isliceAux step xs s
+
+def islice {α} (xs : List α) (start step : Nat) : List α := isliceAux step xs start
 
 /-- `_infinite_indices`: concatenation of the epoch permutations (first `perms.length` epochs) -/
 def infinitePrefix (perms : List (List Nat)) : List Nat := perms.flatten
